@@ -175,8 +175,8 @@ Definition emit_legend (g : dgraph) : string :=
   match dg_labels g with
   | [] => ""
   | title :: _ =>
-      "subgraph cluster_L { " ++ q (escape_for_dot title) ++ " [shape=box fontsize=16" ++
-      " label=" ++ q (concat_with s_bs_l (map escape_for_dot (dg_labels g)) ++ s_bs_l) ++
+      "subgraph cluster_L { " ++ q (escape_for_dot title) ++ " [shape=box fontsize=16 label=" ++
+      q (concat_with s_bs_l (map escape_for_dot (dg_labels g)) ++ s_bs_l) ++
       (if String.eqb (dg_url g) "" then "" else " URL=" ++ q (escape_for_dot (dg_url g)) ++ " target=" ++ q "_blank") ++
       (if String.eqb (dg_title g) "" then "" else " tooltip=" ++ q (escape_for_dot (dg_title g))) ++
       "] }" ++ s_nl
@@ -255,22 +255,26 @@ Definition min64 (a b : Z) : Z := if a <? b then a else b.
 Definition edge_scaled (w total k cap : Z) : Z :=
   1 + min64 (abs64 (wrap_i64 (Z.quot (wrap_i64 (w * k)) total))) cap.
 
+(* the weight / penwidth / color attributes of an edge (none when Total is 0) *)
+Definition edge_mid (g : dgraph) (e : dedge) : string :=
+  let total := dg_total g in
+  if total =? 0 then ""
+  else
+    let weight := edge_scaled (de_w e) total 100 100 in
+    let width := edge_scaled (de_w e) total 5 5 in
+    (if 1 <? weight then " weight=" ++ zs weight else "") ++
+    (if 1 <? width then " penwidth=" ++ zs width else "") ++ " color=" ++ q "#000000".
+
+Definition edge_tooltip (g : dgraph) (e : dedge) : string :=
+  escape_for_dot (printable_name (de_src e)) ++ " " ++ (if de_residual e then "..." else "->") ++ " " ++
+  escape_for_dot (printable_name (de_dst e)) ++ " (" ++ zlookup (dg_fv g) (de_w e) ++ ")".
+
 Definition emit_edge (g : dgraph) (e : dedge) (has_nodelets : bool) : string :=
   let w := zlookup (dg_fv g) (de_w e) in
-  let total := dg_total g in
-  let attr0 := "label=" ++ q (" " ++ w ++ (if de_inline e then s_bs_n ++ " (inline)" else "")) in
-  let attr1 :=
-    if total =? 0 then attr0
-    else
-      let weight := edge_scaled (de_w e) total 100 100 in
-      let width := edge_scaled (de_w e) total 5 5 in
-      attr0 ++ (if 1 <? weight then " weight=" ++ zs weight else "") ++
-      (if 1 <? width then " penwidth=" ++ zs width else "") ++ " color=" ++ q "#000000" in
-  let arrow := if de_residual e then "..." else "->" in
-  let tooltip := q (escape_for_dot (printable_name (de_src e)) ++ " " ++ arrow ++ " " ++
-                    escape_for_dot (printable_name (de_dst e)) ++ " (" ++ w ++ ")") in
-  "N" ++ zs (de_from e) ++ " -> N" ++ zs (de_to e) ++ " [" ++ attr1 ++
-  " tooltip=" ++ tooltip ++ " labeltooltip=" ++ tooltip ++
+  "N" ++ zs (de_from e) ++ " -> N" ++ zs (de_to e) ++
+  " [label=" ++ q (" " ++ w ++ (if de_inline e then s_bs_n ++ " (inline)" else "")) ++
+  edge_mid g e ++
+  " tooltip=" ++ q (edge_tooltip g e) ++ " labeltooltip=" ++ q (edge_tooltip g e) ++
   (if de_residual e then " style=" ++ q "dotted" else "") ++
   (if has_nodelets then " minlen=2" else "") ++ "]" ++ s_nl.
 
